@@ -2,7 +2,7 @@
 # Applies every seeded change to a scratch worktree of /repo (outside /repo and /verif), runs the quick check of the
 # property it was written for (plus listed cross-checks) against that copy, removes the copy. Writes seeded/RESULTS.tsv.
 # Neither /repo nor the committed evidence is touched.
-cd /verif
+ROOT="$(cd "$(dirname "$0")/.." && pwd)"; cd "$ROOT"; mkdir -p .work
 out=seeded/RESULTS.tsv
 echo -e "seed\tcheck\ttier\trc\tverdict" > $out
 export VERIF_EVIDENCE_DIR=/tmp/seedmatrix_evidence VERIF_REPLAY_DIR=/tmp/seedmatrix_replays
@@ -12,7 +12,7 @@ run() { # seed check
   [ -f $d/patch_ported_to_fixed_tree.diff ] && patch=$d/patch_ported_to_fixed_tree.diff
   git -C /repo worktree remove --force $wt 2>/dev/null
   git -C /repo worktree add -q --detach $wt HEAD || return
-  if git -C $wt apply /verif/$patch; then
+  if git -C $wt apply "$ROOT/$patch"; then
     VERIF_REPO=$wt ./check $p --tier quick > .work/seedrun_$1_$p.log 2>&1; rc=$?
   else rc=3; fi
   git -C /repo worktree remove --force $wt
